@@ -1,6 +1,37 @@
 PROP = dict(
-    modules=["Shangrla.Model.NonnegMean"],
-    theorems=[],
+    modules=["Shangrla.Props.C05"],
+    theorems=[
+        # the parameter applied to observation j+1 depends only on observations 1..j
+        "Shangrla.C05.estim_predictable_fixed", "Shangrla.C05.estim_predictable_shrink",
+        "Shangrla.C05.estim_predictable_optimal",
+        "Shangrla.C05.bet_predictable_fixed", "Shangrla.C05.bet_predictable_agrapa",
+        # when the calls raise
+        "Shangrla.C05.estim_ok_fixed", "Shangrla.C05.estim_ok_shrink", "Shangrla.C05.estim_ok_optimal",
+        "Shangrla.C05.bet_ok_fixed", "Shangrla.C05.bet_ok_agrapa",
+        "Shangrla.C05.estim_ok_congr", "Shangrla.C05.bet_ok_congr", "Shangrla.C05.sizeOk_append_congr",
+        # histories: common head => common prefix
+        "Shangrla.C05.hist_prefix_alpha", "Shangrla.C05.hist_prefix_alpha_run",
+        "Shangrla.C05.hist_prefix_betting", "Shangrla.C05.hist_prefix_betting_run",
+        "Shangrla.C05.hist_prefix_kk", "Shangrla.C05.hist_prefix_km", "Shangrla.C05.hist_prefix_kw",
+        "Shangrla.C05.hist_prefix_sprt", "Shangrla.C05.hist_prefix_run",
+        # truncation
+        "Shangrla.C05.hist_truncate_alpha_partial", "Shangrla.C05.hist_truncate_alpha_run_partial",
+        "Shangrla.C05.hist_truncate_betting_partial", "Shangrla.C05.hist_truncate_betting_run_partial",
+        "Shangrla.C05.hist_truncate_kk", "Shangrla.C05.hist_truncate_km", "Shangrla.C05.hist_truncate_kw",
+        "Shangrla.C05.hist_truncate_sprt",
+        "Shangrla.C05.hist_truncate_run_nonmart", "Shangrla.C05.hist_truncate_run_mart_partial",
+        "Shangrla.C05.hist_length_alpha", "Shangrla.C05.hist_length_betting",
+        # the unconditional "<=" of the truncation statement is false for degenerate tuning
+        "Shangrla.C05.hist_truncate_alpha_full_false", "Shangrla.C05.hist_truncate_betting_full_false",
+    ],
     groups={"nm": (1500, 30000)},
     design_ref="DESIGN.md section 5, C05",
+    partial="hist_truncate for alpha_mart/betting_mart: proved that truncating x++y to x leaves entries "
+            "0..|x|-2 unchanged and that entry |x|-1 is unchanged unless the final-sample clamp fires "
+            "(N*t < sum x), in which case it becomes 0; hence it is <= the entry of the longer sample "
+            "WHENEVER that entry is a number >= 0.  The unconditional '<=' (hist_truncate_alpha_full, "
+            "hist_truncate_betting_full) is false of model and code for degenerate tuning: shrink_trunc "
+            "with d=0 gives a nan history (nan <= nan is false); fixed_bet with lam=-3 gives a negative "
+            "'p-value'.  Non-negativity of the history is the subject of C11/C12.  The generic "
+            "alpha/betting theorems assume the estimator/bet returns one value per observation (LenPresE).",
 )
